@@ -695,7 +695,8 @@ func runC02(ctx *core.Ctx) {
 		runC02Oracle(ctx)
 		return
 	}
-	if os.Getenv("C02_ONLY") == "seq" { // development aid: only the load-sequence stream (round 6)
+	if os.Getenv("C02_ONLY") == "seq" { // development aid: only the load-sequence streams (round 6)
+		runC02History(ctx)
 		runC02LoadSeq(ctx)
 		return
 	}
@@ -992,6 +993,7 @@ func runC02(ctx *core.Ctx) {
 	}
 
 	// ---- 4. the direct oracle on whole loads
+	runC02History(ctx)
 	runC02LoadSeq(ctx)
 	runC02Oracle(ctx)
 }
